@@ -1,5 +1,6 @@
 import LokiModel.C39.Sound
 import LokiModel.C39.Guard
+import LokiModel.C39.Entry
 /-!
 # C39 — Parametrisation preserves behaviour for matching inputs
 
@@ -21,6 +22,9 @@ What is proved (all fuel, all programs, all states — no bounds):
   correspondence check and the direct oracle only.
 * `param_invariant` — safe statements keep `x` at its value (so the hypothesis of `param_sound_partial` propagates through
   sequences, loops, branches and calls).
+* `entry_points_guarded` — in the model every entry point of the processing order (several drivers, several `entry_points`) gets a
+  guard for every parametrised dummy it declares (PARAMETER mode; with `replace_by_value` the guards additionally pass through the
+  literal substitution, which is not covered by this statement).
 * `guard_fires` / `guard_passes` — the guard inserted at an entry point: for a value different from the fixed one the run ends at
   the guard's abort, before anything else happens, and the only output is the guard's report; for the fixed value the guard is
   transparent.
@@ -59,6 +63,25 @@ theorem guard_passes (cfg : Cfg) (P : Program) (y : String) (v : Int) (rest : Li
     execStmts P (f + 4) (guard cfg y v ++ rest) st = execStmts P (f + 2) rest st :=
   guard_passes_stmts cfg P y v rest st f h
 
+/-- **every entry point is guarded** (any number of drivers / `entry_points`; PARAMETER mode): if the tree is processed without an
+exception, then for every unit `name` of the processing order that is an entry point, and every dummy `a` of it that is a key of
+the dictionary (value `v`), the processed unit's body contains the guard `IF (parametrised_a /= v) <abort>` — and by
+`processUnit_entry_body` the guards are the first statements of the body.  Together with `guard_fires` this is "a non-matching
+value aborts at every entry point"; no guard depends on what was generated for another unit. -/
+theorem entry_points_guarded (cfg : Cfg) (p : Program) (ds : List Done) (name a : String) (v : Int) (u : Fir.Unit)
+    (hrun : runAll cfg p cfg.order [] [] = (ds, none)) (hrbv : cfg.rbv = false)
+    (hord : name ∈ cfg.order) (hent : isEntry cfg p name = true) (hu : findUnit p name = some u)
+    (ha : a ∈ u.args) (hlow : a.toLower = a) (hv : lookupExact cfg.dic a = some v) :
+    ∃ d ∈ ds, d.name = name ∧ ∃ l r, d.unit.body = l ++ guard cfg (pfx ++ a) v ++ r := by
+  obtain ⟨d, hd, hn, upd, hp⟩ := runAll_entry cfg p cfg.order [] [] ds hrun name hord hent u hu
+  have hne : cfg.dic.isEmpty = false := by
+    cases hdic : cfg.dic with
+    | nil => simp [hdic, lookupExact] at hv
+    | cons kv rest => rfl
+  obtain ⟨rest, hb⟩ := processUnit_entry_body cfg p cfg.dic u d.unit upd hne hrbv hp
+  obtain ⟨l, r, hg⟩ := guards_complete cfg cfg.dic u.args a v ha hlow hv
+  exact ⟨d, hd, hn, l, r ++ rest, by rw [hb, hg]; simp [List.append_assoc]⟩
+
 /-! ### non-vacuity -/
 
 def exState : St := { store := [("n", .scalar .int (some (.int 3))), ("r1", .scalar .int (some (.int 0)))] }
@@ -71,5 +94,23 @@ def exBody : List Stmt :=
 example : Inv "n" 3 exState := ⟨rfl, rfl⟩
 example : safeStmts "n" exBody = true := by decide
 example : Holds exState "n" 3 := ⟨rfl, rfl⟩
+
+/-- two drivers sharing a kernel: both get their guards -/
+def twoDrivers : Program := { main := "kernel", units := [
+  { name := "kernel", args := ["n", "r1"], decls := [{ name := "n", ty := .int, dims := [], intent := .in_ },
+      { name := "r1", ty := .int, dims := [], intent := .inout }], body := [.callSub "sub1" [.var "n", .var "r1"]] },
+  { name := "kernel2", args := ["n", "r1"], decls := [{ name := "n", ty := .int, dims := [], intent := .in_ },
+      { name := "r1", ty := .int, dims := [], intent := .inout }],
+    body := [.assign (.var "r1") (.lit (.int 0)), .callSub "sub1" [.var "n", .var "r1"]] },
+  { name := "sub1", args := ["n", "r1"], decls := [{ name := "n", ty := .int, dims := [], intent := .in_ },
+      { name := "r1", ty := .int, dims := [], intent := .inout }], body := [.assign (.var "r1") (.bin .add (.var "r1") (.var "n"))] }] }
+
+def twoDriversCfg : Cfg :=
+  { dic := [("n", 4)], rbv := false, entry := none, printAbort := true, order := ["kernel", "kernel2", "sub1"], roots := ["kernel", "kernel2"] }
+
+example : (runAll twoDriversCfg twoDrivers twoDriversCfg.order [] []).2 = none := by decide +kernel
+example : isEntry twoDriversCfg twoDrivers "kernel2" = true := by decide +kernel
+example : lookupExact twoDriversCfg.dic "n" = some 4 := by decide +kernel
+example : "n".toLower = "n" := by decide +kernel
 
 end LokiModel.C39
